@@ -1,6 +1,7 @@
 """C01 — cell-integral kernels compute the form's element tensor."""
 import corpus
 import factcorr
+import tabcorr
 import valprops
 
 EXTRA = [
@@ -58,13 +59,15 @@ def run(v, tier, seed, g):
     st = valprops.account(v, res, "c01", types={"cell"})
     # the algebraic core: argument factorisation of every integrand of these forms vs the proved model (Fact.v)
     fst = factcorr.run(v, cases, seed, "c01")
+    # table classification / reduction: the real predicates vs the proved model (Tab.v) on generated tables
+    tst = tabcorr.run(v, seed, 500 if tier == "quick" else 6000)
     if not g["ok"] and not v.violations:
         v.violation("gate", "proof obligations no longer check: " + "; ".join(g["broken"]), {"broken": g["broken"]}, no_input=True)
     cov = {"checker_cmd": f"./check C01 --tier {tier}", "trusted_base": valprops.ORACLE_TRUST + ["Coq kernel (Flatten.v layout lemmas; Fact.v argument factorisation)",
                                                                       "factcorr.py: export of the scalar integrand graph S and of the real factors (argument-free sub-DAGs collapsed to atoms), exact Gaussian-integer evaluation",
                                                                       "UFL's arity checker for the multilinearity hypothesis (checked per exported integrand by Fact.wfb)"],
            "programs": st["cases"], "disagreements_checked": st["agree"] + st["mismatch"], "evaluations": st["agree"] + st["mismatch"],
-           "distinct_nontrivial": st["distinct"], "oracle": st, "factorisation_correspondence": fst,
+           "distinct_nontrivial": st["distinct"], "oracle": st, "factorisation_correspondence": fst, "table_classification_correspondence": tst,
            "rule": "pinned + seeded random forms, every integral given an explicit quadrature degree; one comparison per cell kernel against the independent oracle",
            "axioms_under_property_theorems": g.get("axioms", [])}
     return v.finish("proof", cov, ["the end-to-end statement (kernel = quadrature sum for every form) is NOT a theorem: it is decided per sampled form by the oracle; "
